@@ -28,8 +28,14 @@ Record state := mkSt {
   st_file   : version;
   st_side   : option sidecar;    (* on disk, shared by all processes *)
   st_proc   : pcache;            (* the querying process *)
-  st_poison : bool               (* a sidecar build ran with a footer of another layout: contents unknown *)
+  st_poison : bool               (* a sidecar build ran with a footer of another layout: the sidecar's contents are
+                                    unknown AND the build may have panicked inside BUILD_LOCK (observed: "index out of
+                                    bounds" in build_sidecar), which poisons that process-global mutex: `lock().ok()?`
+                                    then makes every later ensure_sidecar of the process decline to build.  Nothing is
+                                    predicted for the rest of such a history (every answer Undef, class 1). *)
 }.
+(* A history is the life of ONE long-lived engine process from its start (`init`: empty process caches, usable
+   lock) plus fresh child processes; the harness runs every history in a process of its own accordingly. *)
 
 Inductive mode := Off | Auto | Build.      (* QE_IPC_CACHE = 0 / unset / 1 *)
 
@@ -118,7 +124,7 @@ Section Keyed.
   Inductive obs :=
   | OWrite
   | OAns (allowed : list ans) (truth : ans)
-  | ODict (reported truth : bool).
+  | ODict (reported truth : bool) (undef : bool).   (* undef: the sidecar on disk is the product of an undefined build *)
 
   Definition side_dict (side : option sidecar) : bool :=
     match side with Some sc => s_dict sc | None => false end.
@@ -134,7 +140,7 @@ Section Keyed.
         (OAns a (q_true (v_content (st_file st)) q), mkSt (st_file st) side (st_proc st) po)
     | DictCols =>
         let b := match p_dict (st_proc st) with Some b => b | None => side_dict (st_side st) end in
-        (ODict b (side_dict (st_side st)),
+        (ODict b (side_dict (st_side st)) (st_poison st),
          mkSt (st_file st) (st_side st) (mkP (p_footer (st_proc st)) (Some b)) (st_poison st))
     end.
 
@@ -174,7 +180,7 @@ Section Keyed.
         else if match m with Off => false | _ => known_side st end then 2 else 0
     | Child m _ =>
         if st_poison st then 1 else if match m with Off => false | _ => known_side st end then 2 else 0
-    | DictCols => if known_dict st then 3 else 0
+    | DictCols => if st_poison st then 1 else if known_dict st then 3 else 0
     end.
 
   Fixpoint classes (st : state) (ops : list op) : list Z :=
@@ -189,7 +195,7 @@ Definition obs_fresh (o : obs) : bool :=
   match o with
   | OWrite => true
   | OAns allowed truth => forallb (fun a => ans_eqb a truth) allowed
-  | ODict b t => Bool.eqb b t
+  | ODict b t u => negb u && Bool.eqb b t
   end.
 
 (* an implementation answer is explained by the model / satisfies the property *)
